@@ -148,3 +148,12 @@ Section Instances.
   Definition xchacha_dec := na_dec_lenprefix xcc_open 24 16 (Some chacha_open_max).
   Definition xchacha_subtle_dec := na_dec_lenfirst xcc_open 24 16 (Some chacha_open_max) [].
 End Instances.
+
+(* Length-only prediction of a panic of the nonce-based Decrypt bodies (used for
+   ciphertexts too long to materialise; proved equivalent in AeadFrameProofs) *)
+Definition na_dec_panics (open_max : option N) (pl ivlen taglen : nat) (clen : N) (prefix_ok : bool) : bool :=
+  match open_max with
+  | Some m => prefix_ok && (N.of_nat (pl + ivlen + taglen) <=? clen)
+              && (m <? clen - N.of_nat pl - N.of_nat ivlen)
+  | None => false
+  end.
